@@ -2,7 +2,7 @@
    DecoderError, and the table in force is untouched.  Main theorem proved in proofs/DecoderInv.v. *)
 From Coq Require Import String List ZArith NArith Bool.
 Import ListNotations.
-From Selfies Require Import Base Generated Lex Atoms Grammar Compat Decoder Config History StateFacts DecoderBasics CompatFacts ConfigFacts DecoderInv DecoderSum.
+From Selfies Require Import Base Generated Lex Atoms Grammar Compat Decoder Config History StateFacts DecoderBasics CompatFacts ConfigFacts DecoderInv DecoderSum TokFacts.
 Local Open Scope string_scope.
 Local Open Scope Z_scope.
 
@@ -37,6 +37,24 @@ Theorem C08_decoder_total_partial : forall T s attribute,
   (exists out, decoder T s false attribute = Ok out) \/ decoder T s false attribute = Err DecoderError.
 Proof. exact decoder_total_ok. Qed.
 
+
+(* the same with the side condition spelt out: no symbol of s is longer than the interpreter's limit on int()
+   digit strings (sys.get_int_max_str_digits(), regenerated on every run: 4300 here; 0 = no limit) *)
+Theorem C08_decoder_total_short_symbols : forall T s attribute,
+  (exists c, assoc (lit "?") T = Some c) -> symbols_short s ->
+  (exists out, decoder T s false attribute = Ok out) \/ decoder T s false attribute = Err DecoderError.
+Proof. intros T s attribute Hq Hs. apply decoder_total_ok; [exact Hq|]. now apply digits_ok_of_symbols. Qed.
+
+Corollary C08_decoder_total_short_string : forall T s attribute,
+  (exists c, assoc (lit "?") T = Some c) -> (N.of_nat (length s) <= int_max_str_digits)%N ->
+  (exists out, decoder T s false attribute = Ok out) \/ decoder T s false attribute = Err DecoderError.
+Proof. intros T s attribute Hq Hs. apply decoder_total_ok; [exact Hq|]. apply digits_ok_of_length. now right. Qed.
+
+(* and the limit is sharp: one digit more and int() refuses (the known finding, on the model) *)
+Example C08_limit_is_sharp :
+  decoder default_constraints (lit "[" ++ repeat 49%N (S (N.to_nat int_max_str_digits)) ++ lit "C]")%list false false = Err ValueError.
+Proof. vm_compute. reflexivity. Qed.
+
 (* digits_ok is not a hidden assumption about "nice" strings: it holds of garbage too *)
 Example C08_digits_ok_example :
   digits_ok (lit "[C][=N+1][Branch1][junk][[Ring1].[13CH2-1]]][=C][Ring9][O").
@@ -56,3 +74,5 @@ Print Assumptions C08_ring_assert_unreachable_partial.
 Print Assumptions C08_unknown_symbol_is_decoder_error_partial.
 Print Assumptions C08_decoder_total_partial.
 Print Assumptions C08_table_untouched.
+Print Assumptions C08_decoder_total_short_symbols.
+Print Assumptions C08_decoder_total_short_string.
